@@ -31,7 +31,7 @@ func call(f func()) (p interface{}) {
 func errf(format string, a ...interface{}) error { return fmt.Errorf(format, a...) }
 
 // fast crypto types for wallets (the default scrypt work factor takes seconds per operation)
-var fastCrypto = []crypto.CryptoType{crypto.CryptoTypeSha256Xor, crypto.CryptoTypeSha256Xor, crypto.CryptoTypeSha256Xor, crypto.CryptoTypeScryptChacha20poly1305Insecure}
+var fastCrypto = []crypto.CryptoType{crypto.CryptoTypeSha256Xor, crypto.CryptoTypeSha256Xor, crypto.CryptoTypeSha256Xor, crypto.CryptoTypeSha256Xor, crypto.CryptoTypeSha256Xor, crypto.CryptoTypeSha256Xor, crypto.CryptoTypeSha256Xor, crypto.CryptoTypeScryptChacha20poly1305Insecure}
 
 // mnemonics derived from fixed entropies (bip44 wallets need a valid mnemonic)
 func mnemonicN(i int) string {
